@@ -207,7 +207,9 @@ def judge_sequence(ctx, J_, options, now, leeway, claim_sets):
 
 NOWS = [0, 1, 10**9, 2**31, 2**40, 10**9 + 0.75, 1700000000.25, 0.5]   # a caller may hand over time.time() as it is
 LEEWAYS = [0, 1, 60, 10**6]
-VALUES = [None, True, False, 0, 1, -1, 7, 1.5, "", "a", "joe", "https://example.com", ["a"], ["a", "b"], [], {"a": 1}, {}, [1], 2**70]
+VALUES = [None, True, False, 0, 1, -1, 7, 1.5, "", "a", "joe", "https://example.com", ["a"], ["a", "b"], [], {"a": 1}, {}, [1], 2**70,
+          # what json.loads hands over for the legal JSON texts "\ud83d" and "a\udc80": str values with a lone surrogate
+          "\ud83d", "a\udc80", ["\ud83d", "a"], "é€\U0001F600", "a\x00"]
 NAMES = ["iss", "sub", "aud", "exp", "nbf", "iat", "jti", "scope", "x", "validate", "options", "now", "leeway", "check_value"]
 
 
@@ -393,6 +395,24 @@ def run_shard(ctx):
                             ctx.violation(f"clock-later:{name}:{expect}->{got}", f"a registry built (without now) when the clock stood at {start}, used {later} s later with leeway {lw}: "
                                           f"{name}={v} gave {got}, expected {expect} - the current time is the time of the validation",
                                           {"clock_at_construction": start, "seconds_later": later, "leeway": lw, "claim": name, "v": v})
+                # a refused token in between does not stop the clock either
+                t1 = int(start) + 10 ** 7
+                ft.t = t1 + 0.5
+                refused = call(r.value.validate, {"exp": 5})
+                ft.t = t1 + 7200.5
+                for name, v, expect in (("exp", t1 + 3600, "ExpiredTokenError"), ("nbf", t1 + 3600, None), ("iat", t1 + 7100, None), ("nbf", t1 + 7300 + lw, "InvalidTokenError")):
+                    ctx.ev()
+                    o = call(r.value.validate, {name: v})
+                    ctx.count("clock_cases")
+                    ctx.count("long_lived_registry_cases")
+                    ctx.nontrivial(("clock-after-refusal", start, lw, name, v))
+                    got = o.etype or None
+                    if got != expect or refused.ok:
+                        ctx.violation(f"clock-after-refusal:{name}:{expect}->{got}", f"a registry (without now) refused a token when the clock stood at {t1}.5 and was used again two hours "
+                                      f"later, leeway {lw}: {name}={v} gave {got}, expected {expect} - the current time is the time of the validation",
+                                      {"clock_at_refusal": t1 + 0.5, "clock_now": t1 + 7200.5, "leeway": lw, "claim": name, "v": v})
+                    if not o.ok:
+                        ft.t += 1      # the next validation happens a second after a refusal
                 if not first.ok:
                     ctx.violation("clock-later:first-validation-fails", f"valid claims refused right after construction: {first.exc!r}", {"clock": start})
     finally:
